@@ -243,7 +243,7 @@ def prepare(binp):
         ref = []
         for rep in d.call_many([{"op": "query", "q": q, "describe": True} for q in probes], timeout=600):
             ref.append([rep["descs"][0]["description"], rep["items"][0]["ok"]["v"], rep["items"][0]["ok"]["u"]])
-        exp = d.call({"op": "expected_payload_digest", "dir": "/repo/db"})["ok"]
+        exp = d.call({"op": "expected_payload_digest", "dir": build.REPO + "/db"})["ok"]
     ctx.update({"probes": probes, "reference": ref, "docs": exp["docs"], "digest": exp["digest"]})
     valid_home = tempfile.mkdtemp(prefix="c15-valid-")
     r = run_driver(binp, valid_home, [{"op": "db", "mode": "disk"}])
